@@ -14,24 +14,35 @@ namespace Holpy.C12
 def FilesOk (L : Lib) (s : State) : Prop :=
   s.names = L.names ∧ ∀ n, (s.files n).imports = L.imports n ∧ (s.files n).items = L.items n
 
-def CacheOk (W : World) (L : Lib) (s : State) : Prop :=
+/-- `U n`: the timestamps the file of `n` has carried so far (ghost).  The loader relies on "a changed file gets a
+    timestamp it never had"; every timestamp recorded in the cache is one of these. -/
+abbrev Used := Name → List Nat
+
+def CacheOk (W : World) (L : Lib) (U : Used) (s : State) : Prop :=
   ∀ T, s.cache = some T →
     topoCheck L.imps L.names = none ∧
     (∀ n, (T n).map (·.imports) = L.imps n) ∧
-    (∀ n e, T n = some e → e.stamp.isSome →
-      ∀ k, specContent W L k n ≠ .error .fuel → specContent W L k n = .ok e.content)
+    -- an entry that the loader would reuse (own timestamp and all dependency timestamps current) holds the
+    -- specified parse of its file in the CURRENT library
+    (∀ n e, T n = some e → e.valid s n = true →
+      ∀ k, specContent W L k n ≠ .error .fuel → specContent W L k n = .ok e.content) ∧
+    -- a parsed entry recorded a timestamp for every transitive import
+    (∀ n e, T n = some e → e.stamp.isSome → L.order e.imports = some (e.deps.map (·.1))) ∧
+    -- recorded timestamps are timestamps the files really had
+    (∀ n e, T n = some e → (∀ t, e.stamp = some t → t ∈ U n) ∧ ∀ d ∈ e.deps, d.2 ∈ U d.1)
 
-def Inv (W : World) (L : Lib) (s : State) : Prop := FilesOk L s ∧ CacheOk W L s
+def Inv (W : World) (L : Lib) (U : Used) (s : State) : Prop :=
+  FilesOk L s ∧ CacheOk W L U s ∧ ∀ n, (s.files n).mtime ∈ U n
 
-/-- stamped entries stay stamped -/
+/-- reusable entries stay reusable (possibly replaced by a new reusable entry) -/
 def Mono (s s' : State) : Prop :=
-  ∀ n e, s.entry n = some e → e.stamp.isSome → ∃ e', s'.entry n = some e' ∧ e'.stamp.isSome
+  ∀ n e, s.entry n = some e → e.valid s n = true → ∃ e', s'.entry n = some e' ∧ e'.valid s' n = true
 
 /-- the parts of the state the invariant talks about are equal -/
 def SameCore (s s' : State) : Prop := s'.cache = s.cache ∧ s'.files = s.files ∧ s'.names = s.names
 
-structure Rel (W : World) (L : Lib) (s s' : State) : Prop where
-  inv : Inv W L s'
+structure Rel (W : World) (L : Lib) (U : Used) (s s' : State) : Prop where
+  inv : Inv W L U s'
   files : s'.files = s.files
   names : s'.names = s.names
   mono : Mono s s'
@@ -47,12 +58,16 @@ theorem SameCore.symm {a b : State} (h : SameCore a b) : SameCore b a := ⟨h.1.
 theorem entry_of_sameCore {s s' : State} (h : SameCore s s') (n : Name) : s'.entry n = s.entry n := by
   unfold State.entry; rw [h.1]
 
-theorem Inv.of_sameCore {W : World} {L : Lib} {s s' : State} (h : SameCore s s') (hi : Inv W L s) : Inv W L s' := by
+theorem valid_of_files {s s' : State} (h : s'.files = s.files) (e : Entry) (n : Name) : e.valid s' n = e.valid s n := by
+  unfold Entry.valid; rw [h]
+
+theorem Inv.of_sameCore {W : World} {L : Lib} {U : Used} {s s' : State} (h : SameCore s s') (hi : Inv W L U s) : Inv W L U s' := by
   obtain ⟨hc, hf, hn⟩ := h
-  refine ⟨⟨by rw [hn]; exact hi.1.1, by rw [hf]; exact hi.1.2⟩, ?_⟩
+  refine ⟨⟨by rw [hn]; exact hi.1.1, by rw [hf]; exact hi.1.2⟩, ?_, by rw [hf]; exact hi.2.2⟩
   intro T hT
   rw [hc] at hT
-  exact hi.2 T hT
+  obtain ⟨h1, h2, h3, h4, h5⟩ := hi.2.1 T hT
+  exact ⟨h1, h2, fun n e he hv => h3 n e he (by rw [← valid_of_files hf]; exact hv), h4, h5⟩
 
 theorem Mono.refl (s : State) : Mono s s := fun _ e h hs => ⟨e, h, hs⟩
 
@@ -63,21 +78,26 @@ theorem Mono.trans {a b c : State} (h1 : Mono a b) (h2 : Mono b c) : Mono a c :=
 
 theorem Mono.of_sameCore {s s' : State} (h : SameCore s s') : Mono s s' := by
   intro n e he hs
-  exact ⟨e, by rw [entry_of_sameCore h]; exact he, hs⟩
+  exact ⟨e, by rw [entry_of_sameCore h]; exact he, by rw [valid_of_files h.2.1]; exact hs⟩
 
-theorem Rel.refl {W : World} {L : Lib} {s : State} (hi : Inv W L s) : Rel W L s s := ⟨hi, rfl, rfl, Mono.refl s, id⟩
+theorem Rel.refl {W : World} {L : Lib} {U : Used} {s : State} (hi : Inv W L U s) : Rel W L U s s := ⟨hi, rfl, rfl, Mono.refl s, id⟩
 
-theorem Rel.trans {W : World} {L : Lib} {a b c : State} (h1 : Rel W L a b) (h2 : Rel W L b c) : Rel W L a c :=
+theorem Rel.trans {W : World} {L : Lib} {U : Used} {a b c : State} (h1 : Rel W L U a b) (h2 : Rel W L U b c) : Rel W L U a c :=
   ⟨h2.inv, h2.files.trans h1.files, h2.names.trans h1.names, h1.mono.trans h2.mono, fun h => h2.loaded (h1.loaded h)⟩
 
-theorem Rel.of_sameCore {W : World} {L : Lib} {s s' : State} (hi : Inv W L s) (h : SameCore s s') : Rel W L s s' :=
+theorem Rel.of_sameCore {W : World} {L : Lib} {U : Used} {s s' : State} (hi : Inv W L U s) (h : SameCore s s') : Rel W L U s s' :=
   ⟨hi.of_sameCore h, h.2.1, h.2.2, Mono.of_sameCore h, fun hc => by rw [h.1]; exact hc⟩
 
-theorem Rel.core_right {W : World} {L : Lib} {s s1 s2 : State} (h : Rel W L s s1) (hc : SameCore s1 s2) : Rel W L s s2 :=
+theorem Rel.core_right {W : World} {L : Lib} {U : Used} {s s1 s2 : State} (h : Rel W L U s s1) (hc : SameCore s1 s2) : Rel W L U s s2 :=
   h.trans (Rel.of_sameCore h.inv hc)
 
-theorem Rel.core_left {W : World} {L : Lib} {s0 s s1 : State} (hc : SameCore s0 s) (h : Rel W L s s1) (hi : Inv W L s0) :
-    Rel W L s0 s1 := (Rel.of_sameCore hi hc).trans h
+theorem Rel.core_left {W : World} {L : Lib} {U : Used} {s0 s s1 : State} (hc : SameCore s0 s) (h : Rel W L U s s1) (hi : Inv W L U s0) :
+    Rel W L U s0 s1 := (Rel.of_sameCore hi hc).trans h
+
+theorem valid_stamp {e : Entry} {s : State} {n : Name} (h : e.valid s n = true) : e.stamp = some (s.files n).mtime := by
+  unfold Entry.valid at h
+  simp only [Bool.and_eq_true, beq_iff_eq] at h
+  exact h.1
 
 /-! cosmetic state changes -/
 
